@@ -521,7 +521,21 @@ def _len_subject_is_stored(body, arg_op):
         local = ch[2]["dest"][0]
     else:
         local = ch[1][0]
-    for (b, i, node, how, _c) in R.forward_value_uses(body, local):
+    # the value may travel wrapped: `Ok(value)` out of a helper spliced in here, through `?`, and on
+    carriers, work = [local], [local]
+    while work:
+        l = work.pop()
+        for (b, i, node, how, _c) in R.forward_value_uses(body, l):
+            nl = None
+            if i != R.TERM and "rv" in node and node["rv"].get("k") == "aggr" and node["rv"].get("variant") in ("Ok", "Some") and len(node["rv"].get("ops", [])) == 1 \
+                    and not node["lhs"][1] and node["lhs"][0] != 0:
+                nl = node["lhs"][0]  # (also the result slot of a helper spliced in here)
+            elif i == R.TERM and node.get("k") == "call" and "fn" in node and Callee(node["fn"]).decl_path == "std::ops::Try::branch" and node.get("dest") and not node["dest"][1]:
+                nl = node["dest"][0]
+            if nl is not None and nl not in carriers and len(carriers) < 12:
+                carriers.append(nl)
+                work.append(nl)
+    for (b, i, node, how, _c) in [u for l in carriers for u in R.forward_value_uses(body, l)]:
         if i != R.TERM and "rv" in node and node["rv"]["k"] == "aggr" and node["rv"]["ak"] == "tuple":
             tl = node["lhs"][0]
             for (b2, i2, n2, how2, _c2) in R.forward_value_uses(body, tl):
